@@ -102,7 +102,7 @@ CHECKS = {
          "jj git fetch is emulated with git fetch + jj git import (system git 2.39 lacks fetch --porcelain). Operation granularity suffices because the lease expectation comes from the view loaded before the push and the compare-and-swap is git's.",
          "§3.6, §4 C45"),
  "C40": ("clisim", "exploration", "deterministic simulation of command histories through the real jj binary: seeded commands, file edits, commands at older operations, stale workspaces; observation through jj-lib; disk-state bookkeeping per command",
-         "Seeded histories of 8-18 real jj commands (new [--insert-before/--insert-after], describe, commit, squash [--from/--into], abandon, rebase -r/-s/-b, edit, duplicate, metaedit, parallelize, simplify-parents, split <file>, absorb, file chmod, restore [--from/--into], bookmark set/delete, tag set, undo/redo, op restore, workspace add/update-stale, --at-op commands that create divergent operations, --ignore-working-copy commands) in one repository with up to two workspaces, interleaved with user edits, among them a coarse-clock fault: a same-size rewrite of a file written less than 2 s before the last state save, with the state file's mtime set equal to the file's and preserved by the rewrite (what a file system with 2 s timestamps would record). For every command that snapshots and succeeds in a workspace that has a working-copy commit, every file content on disk when it started must afterwards be in a working-copy commit of that workspace recorded by some operation in the log, whether or not it is still on disk; for a command that failed (refused as stale, bad revision, immutable target) it may instead still be on disk (materialized conflict files count as recorded when the path holds the conflict).",
+         "Seeded histories of 8-18 real jj commands (new [--insert-before/--insert-after], describe, commit, squash [--from/--into], abandon, rebase -r/-s/-b, edit, duplicate, metaedit, parallelize, simplify-parents, split <file>, absorb, file chmod, restore [--from/--into], bookmark set/delete, tag set, undo/redo, op restore, workspace add/update-stale, --at-op commands that create divergent operations, --ignore-working-copy commands) in one repository with up to two workspaces, interleaved with user edits. For every command that snapshots and succeeds in a workspace that has a working-copy commit, every file content on disk when it started must afterwards be in a working-copy commit of that workspace recorded by some operation in the log, whether or not it is still on disk; for a command that failed (refused as stale, bad revision, immutable target) it may instead still be on disk (materialized conflict files count as recorded when the path holds the conflict).",
          "Only small, non-ignored files are generated; interactive commands (diffedit, resolve, split -i) are not in the mix; process kills inside a command are C15's subject.",
          "§3.5, §4 C40"),
  "C41": ("clisim", "exploration", "deterministic simulation of command histories through the real jj binary: seeded commands, file edits, commands at older operations, stale workspaces; observation through jj-lib; undo stack judged against the operation DAG",
